@@ -122,6 +122,23 @@ typedef size_t             vnd_t_size_t;
 
 #endif /* VERIF_NATIVE */
 
+#if !defined(VERIF_NATIVE) && defined(VERIF_CBMC)
+/* DFCC unrolls the loops of its write-set library up to the largest *function* contract's
+ * assigns clause; loop contracts with more targets than that then fail an internal unwinding
+ * assertion.  Harnesses whose loop contracts have many targets call verif_bump() once and list
+ * it under replace=: its contract's 32-target assigns clause raises the bound. */
+extern char verif_pad[32];
+#define VP(i) verif_pad[i]
+void verif_bump(void)
+    __CPROVER_requires(1) __CPROVER_ensures(1)
+    __CPROVER_assigns(VP(0), VP(1), VP(2), VP(3), VP(4), VP(5), VP(6), VP(7), VP(8), VP(9), VP(10), VP(11), VP(12), VP(13), VP(14), VP(15),
+                      VP(16), VP(17), VP(18), VP(19), VP(20), VP(21), VP(22), VP(23), VP(24), VP(25), VP(26), VP(27), VP(28), VP(29), VP(30), VP(31));
+#define VERIF_BUMP_DEFINE char verif_pad[32];
+#else
+#define VERIF_BUMP_DEFINE
+static inline void verif_bump(void) {}
+#endif
+
 /* post-condition check written in the harness after the call.  Under CBMC the same
  * expression is ALSO the function contract's ensures clause (enforced by DFCC); the
  * harness copy carries the property id in its name and drives the native replay. */
